@@ -22,7 +22,7 @@ func newEngine(c *Context, sp *ssa.Package, fn *ssa.Function, fc *FuncContract) 
 	e := &Engine{ctx: c, prog: c.prog, pkg: sp, fset: c.fset, top: fn, fc: fc, ufs: map[string]bool{},
 		named: map[string]Val{}, ptrCell: map[string]*Cell{}, forced: map[*ssa.If]bool{}, oblNames: map[string]int{},
 		inputArrs: map[*Arr]map[string]string{}, inputCells: map[*Cell]Val{}, inputState: newState(),
-		volatile: map[*Cell]bool{}, trustedUsed: map[string]bool{}, havocked: map[string]bool{}, recDefs: map[string]bool{}, boxed: map[string]Val{}}
+		effectMatches: map[string]int{}, volatile: map[*Cell]bool{}, trustedUsed: map[string]bool{}, havocked: map[string]bool{}, recDefs: map[string]bool{}, boxed: map[string]Val{}}
 	e.cfg = FuncCfg{Arith: "none", Inline: map[string]bool{}, Havoc: map[string]bool{}}
 	if fc != nil {
 		e.cfg.Arith = fc.Arith
@@ -33,6 +33,14 @@ func newEngine(c *Context, sp *ssa.Package, fn *ssa.Function, fc *FuncContract) 
 		}
 		for _, n := range fc.Havoc {
 			e.cfg.Havoc[n] = true
+		}
+		e.noInline = map[string]bool{}
+		for _, ec := range fc.EffectCl {
+			for _, p := range []*callPattern{ec.Every, ec.Needs} {
+				if p != nil && p.static != "" {
+					e.noInline[p.static] = true
+				}
+			}
 		}
 	}
 	return e
@@ -138,6 +146,17 @@ func (e *Engine) evalPostNamed(sp *ssa.Package, pf postFn, fn *ssa.Function, arg
 		if v, ok := olds[name]; ok {
 			return v, true
 		}
+		if strings.HasPrefix(name, "gocvcall_") {
+			var k int
+			fmt.Sscanf(name, "gocvcall_%d", &k)
+			if k < len(pf.calls) {
+				for _, p := range post.Params {
+					if p.Name() == name {
+						return e.callRefValue(pf.calls[k], exit, p.Type()), true
+					}
+				}
+			}
+		}
 		// parameters shadow results of the same name (cannot happen in Go), results next
 		if v, ok := ep(name); ok {
 			return v, true
@@ -236,6 +255,12 @@ func (c *Context) verifyFunc(fc *FuncContract) (res *FuncResult) {
 				ob.Post = pf.name
 			}
 		}
+	}
+	if len(fc.EffectCl) > 0 {
+		e.effectObligations(sp, fc, fn, args, bind)
+	}
+	if reach != "false" && fc.Frame {
+		e.frameObligations(fc, fn, args, out, reach)
 	}
 	// vacuity: the precondition together with everything assumed on the way must leave some return reachable
 	e.obls = append(e.obls, Oblig{Name: fnDisplayName(fn) + "#cover:return-reachable", Kind: "cover", Reach: reach, Goal: "false", NFacts: len(e.facts), Pos: c.fset.Position(fn.Pos()), Expect: "sat"})
